@@ -224,7 +224,8 @@ func runRoundTrip(out *lib.Out, id string, segs []string) {
 
 var oddSegs = []string{"", "0", "1", "2", "01", "+1", "-1", "-0", "1x", "x", "a", "b", "zz", "9223372036854775807",
 	"9223372036854775808", "18446744073709551616", "00000000000000000000001", "1.0", " 1", "a/b", "/", "é", "1_0", "0x1",
-	"\xff", "caf\xe9", "\xe2\x82", "a\xffb", "€\xe2", "\xc0\xaf", "\xed\xa0\x80"}
+	"\xff", "caf\xe9", "\xe2\x82", "a\xffb", "€\xe2", "\xc0\xaf", "\xed\xa0\x80",
+	"~", "~0", "~1", "~01", "a~1b", "PROGRA~1", "notes.txt~0", "~~", "~2"}
 
 func mutatePath(r *lib.Rng, base []string, keys []string) []string {
 	p := append([]string{}, base...)
@@ -305,7 +306,8 @@ func corpus(out *lib.Out) {
 	for i, p := range [][]string{{"1"}, {"01"}, {"+1"}, {"-1"}, {"x"}, {""}, {"3"}, {"1", "0"}, {"9223372036854775808"}} {
 		runPath(out, fmt.Sprintf("k11.p%d", i), tc2, p)
 	}
-	for i, segs := range [][]string{{}, {"a"}, {"a", "b"}, {""}, {"a", ""}, {"a/b"}, {"/"}, {"", ""}, {"é", "0"}, {"a", "", "b"}} {
+	for i, segs := range [][]string{{}, {"a"}, {"a", "b"}, {""}, {"a", ""}, {"a/b"}, {"/"}, {"", ""}, {"é", "0"}, {"a", "", "b"},
+		{"PROGRA~1"}, {"notes.txt~0", "~1"}, {"~"}, {"a~1b", "~01"}, {"caf\xe9"}, {"\xff", "\xe2\x82"}} {
 		runRoundTrip(out, fmt.Sprintf("k12.r%d", i), segs)
 	}
 }
@@ -352,6 +354,14 @@ func main() {
 		var tc *lib.TravCase
 		var paths [][]string
 		for {
+			if rng.Chance(4) {
+				tc = lib.GenSharedClauseCase(rng)
+				var ok bool
+				if paths, ok = runVisits(out, fmt.Sprintf("p%d", i), tc); ok {
+					break
+				}
+				continue
+			}
 			tc = lib.GenTravGraph(rng)
 			sg := &lib.SelGen{R: rng, Cids: tc.AllCids(), Keys: tc.AllKeys(), MaxDepth: 1 + rng.Intn(5), BadPct: 1, BareEdgePct: 2}
 			tc.Sel = sg.Top()
@@ -379,7 +389,8 @@ func main() {
 			var segs []string
 			for x := 0; x < k; x++ {
 				if rng.Chance(75) {
-					segs = append(segs, []string{"a", "b", "0", "1", "01", "é", "key", "x y", "-", "\xff", "caf\xe9", "\xe2\x82", "a\xffb"}[rng.Intn(13)])
+					segs = append(segs, []string{"a", "b", "0", "1", "01", "é", "key", "x y", "-", "\xff", "caf\xe9", "\xe2\x82", "a\xffb",
+						"~", "~0", "~1", "~01", "a~1b", "PROGRA~1"}[rng.Intn(19)])
 				} else {
 					segs = append(segs, oddSegs[rng.Intn(len(oddSegs))])
 				}
